@@ -324,4 +324,53 @@ example (f1 : Nat) (as1 : List Term) (e1 : VM.End)
     ⟨fragN1.clauses, by decide +kernel, by decide +kernel, (fun _ h => by cases h), by decide +kernel⟩
     (by decide) f1 60 as1 _ e1 _ h1 sldN3 hcalls
 
+/-! ## stage 3b: disjunction at the top level of a clause body, of a called goal and of the query
+
+      q(a).  q(b).
+      t(X) :- ( q(X), ! ; X = y ; X = z ).      % three alternatives; the cut cuts t/1
+      t(w).
+      e(X) :- call(( q(X) ; X = z )).            % `call/1` of a disjunction
+      ?- t(X).               one answer a
+      ?- e(X).               three answers a, b, z
+      ?- ( q(X) ; X = z ).   three answers
+
+  (`#eval Driver.C01.vmLine` = `specLine … false` on all three.) -/
+
+def disj (a b : Term) : Term := .app ";" (.cons a (.cons b .nil))
+def tt (a : Term) : Term := .app "tt" (.cons a .nil)
+def ee (a : Term) : Term := .app "ee" (.cons a .nil)
+
+def progE : List Term :=
+  [q (.atom "a"), q (.atom "b"),
+   SLD.rule (tt (v 0)) (disj (conj (q (v 0)) (.atom "!")) (disj (eq (v 0) (.atom "y")) (eq (v 0) (.atom "z")))),
+   tt (.atom "w"),
+   SLD.rule (ee (v 0)) (call1 (disj (q (v 0)) (eq (v 0) (.atom "z"))))]
+
+theorem fragE1 : CtlFrag progE (tt (v 0)) :=
+  ⟨by decide +kernel, by decide +kernel, by decide +kernel, (fun _ h => by cases h), by decide +kernel⟩
+
+theorem sldE1 : SLD.solveQuery 40 progE (tt (v 0)) 5 = some ([tt (.atom "a")], .exhausted) := by decide +kernel
+
+theorem sldE2 : SLD.solveQuery 40 progE (ee (v 0)) 5 =
+    some ([ee (.atom "a"), ee (.atom "b"), ee (.atom "z")], .exhausted) := by decide +kernel
+
+example (f1 : Nat) (as1 : List Term) (e1 : VM.End)
+    (h1 : VM.runQuery f1 progE (Driver.C01.shiftVars 10 (tt (v 0))) 5 = some (as1, e1))
+    (hcalls : CallsOK true f1 progE (tt (v 0)) 5) :
+    Forall2 (AnsRel (Driver.C01.shiftVars 10 (tt (v 0)))) as1 [tt (.atom "a")] ∧ endAgree e1 .exhausted :=
+  vm_refines_sld_ctl progE _ 5 fragE1 (by decide) f1 40 as1 _ e1 _ h1 sldE1 hcalls
+
+example (f1 : Nat) (as1 : List Term) (e1 : VM.End)
+    (h1 : VM.runQuery f1 progE (Driver.C01.shiftVars 10 (ee (v 0))) 5 = some (as1, e1))
+    (hcalls : CallsOK true f1 progE (ee (v 0)) 5) :
+    Forall2 (AnsRel (Driver.C01.shiftVars 10 (ee (v 0)))) as1 [ee (.atom "a"), ee (.atom "b"), ee (.atom "z")] ∧
+      endAgree e1 .exhausted :=
+  vm_refines_sld_ctl progE _ 5
+    ⟨fragE1.clauses, by decide +kernel, by decide +kernel, (fun _ h => by cases h), by decide +kernel⟩
+    (by decide) f1 40 as1 _ e1 _ h1 sldE2 hcalls
+
+/-- a disjunctive query -/
+example : CtlFrag progE (disj (q (v 0)) (eq (v 0) (.atom "z"))) :=
+  ⟨fragE1.clauses, by decide +kernel, by decide +kernel, (fun _ h => by cases h), by decide +kernel⟩
+
 end PrologVerif.Refine.Example
